@@ -556,3 +556,41 @@ Proof.
   intros Hpi Hs Hargs Hall Hprim. rewrite all_rules_with in Hall.
   apply (no_primary_then_rules_silent_gen pi S F D _ errs Hpi Hs Hargs (rule_fields_prefix pi S F D) Hall Hprim).
 Qed.
+
+(** ** every literal with an expected type is expected at an input type, once fields and directives
+    are defined and variables are declared with input types *)
+Lemma args_defs_ok S F D :
+  schema_args_ok S = true ->
+  (forall o, In o (all_fields S F D) -> fo_def S F o <> None) -> valid_5_7_1 S D = true ->
+  forall ad defs, In ad (all_argument_lists S F D) -> snd ad = Some defs -> args_ok S defs = true.
+Proof.
+  intros Hargs Hfk Hdk ad defs Had Es. unfold all_argument_lists in Had.
+  apply in_app_or in Had as [Had | Had]; apply in_map_iff in Had as [x [<- Hx]]; cbn [snd] in Es.
+  - destruct (fo_def S F x) as [d|] eqn:Ed; [| discriminate]. inversion Es; subst defs.
+    unfold fo_def in Ed. destruct (fo_parent x) as [p|]; [| discriminate]. destruct (fo_field x) as [a al f np args dirs sub | |]; try discriminate.
+    unfold field_def_of in Ed. destruct (name_eqb f s_typename).
+    + destruct (composite S p); [inversion Ed; reflexivity | discriminate].
+    + rewrite declared_field_eq in Ed. apply (field_of_scope_args_ok S F Hargs _ _ _ Ed).
+  - destruct x as [loc dir]. cbn [snd] in Es. unfold directive_def in Es.
+    destruct (assoc (d_name dir) (s_directives S)) as [dd|] eqn:Edd; [| discriminate]. inversion Es; subst defs.
+    apply (directive_args_ok S Hargs _ _ Edd).
+Qed.
+
+Theorem values_typed_input_holds S F D :
+  schema_args_ok S = true ->
+  (forall o, In o (all_fields S F D) -> fo_def S F o <> None) -> valid_5_7_1 S D = true -> valid_5_8_2 S F D = true ->
+  values_typed_input S F D = true.
+Proof.
+  intros Hargs Hfk Hdk H582. unfold values_typed_input. apply forallb_forall. intros [v t] Hvt. cbn [snd].
+  rewrite typed_values_split in Hvt. apply in_app_or in Hvt as [Hvt | Hvt].
+  - apply in_arg_lists_values in Hvt as [ad [a0 [Had [Ha0 [Et _]]]]]. unfold arg_type in Et.
+    destruct (snd ad) as [defs|] eqn:Es; [| discriminate]. destruct (assoc (a_name a0) defs) as [d|] eqn:Ed; [| discriminate]. inversion Et; subst t.
+    pose proof (args_defs_ok S F D Hargs Hfk Hdk ad defs Had Es) as Hok.
+    apply input_styb_spec. apply (proj2 (args_ok_spec S defs Hok) (a_name a0, d)). apply assoc_in. exact Ed.
+  - unfold default_values in Hvt. apply in_flat_map in Hvt as [vd [Hvd Hvt]].
+    destruct (vd_default vd) as [x|]; [| destruct Hvt]. destruct (declared_type S F (vd_type vd)) as [t'|] eqn:Et; [| destruct Hvt].
+    destruct Hvt as [Hvt | []]. inversion Hvt; subst x t'.
+    unfold valid_5_8_2 in H582. rewrite forallb_forall in H582. specialize (H582 vd Hvd). rewrite Et in H582.
+    unfold input_type, type_of in H582. unfold input_styb. destruct (named_type S F (unwrapped t)) as [b|] eqn:Eb; [| discriminate].
+    rewrite (ProofsFields.named_type_raw S F _ _ Eb). exact H582.
+Qed.
